@@ -16,8 +16,8 @@ def C(text, note, technique, design):
     return dict(text=text, note=TB + note, technique=technique, design=design)
 
 CLAIMS = {
- "C01": C("Lean: every output returned by a top-down Session::require in any history equals the from-scratch semantics. Write-free programs: C01_sources (histories of external changes and top-down sessions, any aborted), C01_sources_mixed / C01_mixed_equals_clean_build (histories that also contain bottom-up builds, told incomplete change sets or aborted; hypothesis OReflexive, shown necessary by a kernel-checked counterexample). Programs WITH writes and static roles: C01_full_history_equals_clean_build (outputs AND contents of every resource equal the from-scratch build, external edits of generated resources included; WriteExact shown necessary). Store invariants Faithful/FaithfulO preserved by every function also on abort. " + CORR + "Oracle: every session's outputs and resource contents equal a from-scratch build run on the real crates.",
-          "Role-changing programs with writes: no theorem (findings K3/K4); failing stampers excluded by StampTotal (finding K5).", "Lean 4 invariant/refinement proof over hand-written model + differential correspondence + clean-build oracle", "§0.1, §5 C01"),
+ "C01": C("Lean: every output returned by a top-down Session::require in any history equals the from-scratch semantics. Write-free programs: C01_sources (histories of external changes and top-down sessions, any aborted), C01_sources_mixed / C01_mixed_equals_clean_build (histories that also contain bottom-up builds, told incomplete change sets or aborted; hypothesis OReflexive, shown necessary by a kernel-checked counterexample). Programs WITH writes and static roles: C01_full_history_equals_clean_build (outputs AND contents of every resource equal the from-scratch build, external edits of generated resources included; WriteExact shown necessary), over mixed histories with bottom-up builds under Reflexive (C01_full_mixed_history; necessary: kernel-checked counterexample = finding K8), and for transitive static roles — readers reaching the generator through relays — C01_trans_history_equals_clean_build. The hypotheses are evaluated on every generated program by verified Boolean checkers (C01_scripts, C01_trans_scripts). Store invariants Faithful/FaithfulO preserved by every function also on abort. " + CORR + "Oracle: every session's outputs and resource contents equal a from-scratch build run on the real crates.",
+          "Role-changing programs with writes: no theorem (findings K3/K4); failing stampers excluded by StampTotal (finding K5); stale output after an aborted bottom-up build with a failing checker (finding K8, reproduced on the real crates).", "Lean 4 invariant/refinement proof over hand-written model + differential correspondence + clean-build oracle", "§0.1, §5 C01"),
  "C02": C("Lean: at most one execution per task per session in every history also when the session aborts (C02_exec_once), every execution justified by a failed/erroring check event or a missing output (C02_exec_justified_trace, unconditional), idempotence: a repeated require/session with nothing changed executes nothing and returns the same outputs, for write-free programs (C02_idempotent*) and for programs with writes under static roles (C02_idempotent_writes*, after any history), validation in creation order (C11_outgoing_complete + C08_recorded_eq_performed), minimality (C02_minimal: every executed task is demanded by the from-scratch build). " + CORR + "Oracle: <=1 execution per task per session, every execution preceded by its first require or a failed dependency check, nothing executes on an unchanged re-require or repeated session, validation order = recorded creation order, exact-checker executions are a subset of the from-scratch build's.",
           "idempotence/minimality theorems carry Reflexive / static-role hypotheses.", "Lean 4 proof over hand-written model + differential correspondence", "§0.1, §5 C02"),
  "C03": C("Lean: after a returning bottom-up build whose change set covers every rejected read/write stamp (Reported) from a state with ShallowReq and NoOrphan, the queue is empty, every known task is consistent, requiring any of them (same or new session) executes nothing and returns the from-scratch output; the hypotheses are re-established for the next round (any number of rounds). Write-free programs: C03_closure, C03_sources, C03_chain; programs WITH writes under static roles: C03_closure_writes, C03_sources_writes, C03_chain_writes, C03_rounds_writes (outputs = Den, contents = overlay). ShallowReq shown necessary: finding K1 (kernel-checked). " + CORR + "Oracle: after update_affected_tasks, requiring every known task executes nothing and returns from-scratch outputs.",
@@ -53,7 +53,7 @@ CLAIMS = {
  "C18": C("Lean: a checker error is reported, makes the dependency inconsistent (re-execution / scheduling), never aborts; errors = errors of the validation events. " + CORR + "Failing checkers at every position.",
           "", "Lean 4 proof + differential correspondence", "§0.1, §5 C18"),
  "C19": C("Lean: store well-formed after every history whatever aborted (C19_store_wf_history), no internal BUG abort in any later top-down session or bottom-up build (C19_no_bug_history_all, C07_bu_no_bug_history), later top-down sessions return from-scratch results after any mixed history with aborts (C19_results_after_abort_mixed; with writes under static roles: C01_full_history). " + CORR + "Panics injected at every operation, diagnosed violations, abort-repair-rebuild-rebuild histories; oracle: no BUG panic after an abort, results equal from-scratch results. Defect F4 found and repaired.",
-          "spurious abort after an abort = finding K6.", "Lean 4 invariant proof + differential correspondence", "§0.1, §5 C19"),
+          "spurious abort after an abort = findings K6 (cyclic) and K9b (hidden dependency after an aborted relay).", "Lean 4 invariant proof + differential correspondence", "§0.1, §5 C19"),
  "C20": C("Lean: no cyclic/hidden/overlap abort for static-role programs in any history, top-down and bottom-up (C20_static_no_abort); for transitive static roles (readers reaching the generator through relays) the store invariant holds after every history and the first abort of any history is never a diagnosed violation, nor any abort after task panics for prefix-shaped relays (C20_trans_*); the unrestricted statement is refuted by a kernel-checked counterexample that reproduces on the real crates (K9). " + CORR + "Role-change programs; oracle: an incremental abort implies the from-scratch build of all known tasks aborts.",
           "role-changing programs: finding K3 (three patterns, kernel-checked), no positive theorem; finding K9 after an aborted relay.", "Lean 4 invariant proof + differential correspondence", "§0.1, §5 C20"),
 }
@@ -82,7 +82,7 @@ def main():
                       serves_properties=[p for p in ALL if p in READY],
                       kind_free_text="Lean 4 model + theorems (lake build, #print axioms audit); Rust harness running the same cases on the real crates; Python comparison, oracles, shrinking")],
         checks=checks,
-        notes="See DESIGN.md. Violations found on the unchanged tree and repaired are listed in known_findings.json (status fixed).",
+        notes="See DESIGN.md (section 0 as built, 0.1 per-property theorems, 6.2 findings K1-K9, 10 seeded changes and false-alarm corpus). Violations found on the unchanged tree and repaired are listed in known_findings.json (status fixed); known findings K1-K9 (status known) are reported as KNOWN-FINDING lines.",
         not_applicable=[dict(property_id=p, reason="not claimed yet: the correspondence check and oracle run (./check " + p + " quick) but its Lean property theorems are still being proved; it will be claimed when they are, see DESIGN.md §5")
                         for p in ALL if p not in READY],
     )
